@@ -166,7 +166,8 @@ func cmdRun(args []string) int {
 			cmd := exec.Command(ws.Exec, "run", "--prop", prop, "--tier", *tier, "--seed", fmt.Sprint(seed),
 				"--worker", fmt.Sprint(i), "--workers", fmt.Sprint(cfg.Workers), "--count", fmt.Sprint(cfg.Count),
 				"--out", out, "--replays", replayDir, "--known", knownPath,
-				"--max-seconds", fmt.Sprint(cfg.MaxSec), "--shrink-seconds", fmt.Sprint(cfg.ShrinkSec))
+				"--max-seconds", fmt.Sprint(cfg.MaxSec), "--shrink-seconds", fmt.Sprint(cfg.ShrinkSec),
+				"--capture-fds", filepath.Join(ws.Dir, fmt.Sprintf("realfds-%d.txt", i)))
 			cmd.Env = append(os.Environ(), "GOMAXPROCS=2", "GOMEMLIMIT=3GiB")
 			var stderr bytes.Buffer
 			cmd.Stderr = &stderr
@@ -180,7 +181,8 @@ func cmdRun(args []string) int {
 			select {
 			case err := <-done:
 				if err != nil {
-					errs[i] = fmt.Sprintf("worker %d: %v: %s", i, err, clipStr(stderr.String(), 2000))
+					crash, _ := ioutil.ReadFile(filepath.Join(ws.Dir, fmt.Sprintf("realfds-%d.txt", i)))
+					errs[i] = fmt.Sprintf("worker %d: %v: %s %s", i, err, clipStr(stderr.String(), 2000), clipStr(string(crash), 3000))
 				}
 			case <-time.After(cfg.Watchdog):
 				cmd.Process.Kill()
@@ -331,6 +333,16 @@ func cmdRun(args []string) int {
 		merged.Stats["probe.cross-process-hash-differences"] = xprocDiff
 	}
 
+	// vacuity guard: a batch that judged too little, or never fired the faults it
+	// is about, proves nothing and is reported as a broken run (exit 2), never as
+	// "held"
+	if merged.Runs >= 4000 && exit == 0 {
+		if msg := vacuous(prop, merged); msg != "" {
+			fmt.Fprintln(os.Stderr, "simcheck: vacuous run:", msg)
+			return 2
+		}
+	}
+
 	wall := time.Since(t0).Seconds()
 	if !*noEvidence {
 		if err := writeEvidence(prop, *tier, seed, cfg, ws, merged, knownHits, len(unlisted), wall); err != nil {
@@ -351,6 +363,38 @@ func cmdRun(args []string) int {
 		return 2
 	}
 	return exit
+}
+
+// requiredProbes: counters that must be non-zero in a full batch of the property.
+var requiredProbes = map[string][]string{
+	"C04": {"fault.write.EPIPE", "fault.write.ENOSPC", "fault.write.EIO", "fault.callee.execute", "fault.callee.callback", "fd1.write", "fd2.write"},
+	"C05": {"cell.parse-parse|scalar|env+default+stored", "cell.defini-parse|slice|ini+env", "cell.parse-defini|scalar|ini+default"},
+	"C09": {"fault.callee.execute", "fault.callee.handler", "fault.callee.callback", "exit", "probe.fault-produced-error", "probe.fault-harmless"},
+	"C12": {"read.zero", "read.data+EOF"},
+	"C14": {"fault.crash-in-write", "fault.read.EIO", "read.zero", "read.data+EOF", "probe.read-error-reported-as-error", "probe.stall>=100"},
+	"C15": {"order.permuted", "twin.clock-jump", "twin.observer-insertion"},
+}
+
+func vacuous(prop string, m *workerResult) string {
+	rejected := m.NotJudged["generated line not accepted"] + m.NotJudged["history rejected"] + m.NotJudged["declaration rejected"] + m.NotJudged["complete file not readable (round-trip is C12's business)"]
+	if rejected*10 > m.Runs {
+		return fmt.Sprintf("%d of %d scenarios were rejected by the library before the oracle applied (generator and library disagree on what is valid, or the library rejects valid input)", rejected, m.Runs)
+	}
+	nontriv := 0
+	for _, v := range m.Sigs {
+		if v {
+			nontriv++
+		}
+	}
+	if nontriv < 20 {
+		return fmt.Sprintf("only %d distinct non-trivial scenario signatures", nontriv)
+	}
+	for _, k := range requiredProbes[prop] {
+		if m.Stats[k] == 0 {
+			return fmt.Sprintf("reach probe %q stayed at zero", k)
+		}
+	}
+	return ""
 }
 
 func clipStr(s string, n int) string {
